@@ -160,7 +160,7 @@ Proof.
   apply seq_step_safe; [eapply range_safe; exact Ht|]. destruct (forallb _ oks); discriminate.
 Qed.
 
-Lemma handle_acks_safe g pending nres : sufficient NeedReset g = true -> fst (handle_acks g pending nres) <> Boom.
+Lemma handle_acks_safe g pending nres retry : sufficient NeedReset g = true -> fst (handle_acks g pending nres retry) <> Boom.
 Proof.
   destruct g; cbn; try discriminate. intros _. unfold range_site. cbn [guard_leaves].
   destruct (pending =? nres) eqn:E.
@@ -171,8 +171,8 @@ Qed.
 Lemma publish_one_safe g pending r : sufficient NeedReset g = true -> publish_one g pending r <> PubPanic.
 Proof.
   intros Hg. unfold publish_one. destruct (p_kind r); try discriminate.
-  pose proof (handle_acks_safe g pending (p_nacks r) Hg) as H.
-  destruct (handle_acks g pending (p_nacks r)) as [s pend]. cbn in H.
+  pose proof (handle_acks_safe g pending (p_nacks r) (p_retry r) Hg) as H.
+  destruct (handle_acks g pending (p_nacks r) (p_retry r)) as [s pend]. cbn in H.
   destruct s; try congruence; destruct (p_known r); discriminate.
 Qed.
 
